@@ -95,6 +95,27 @@ fn maintenance_passes(tier: &str) -> Vec<crate::seqrun::Pass> {
     v
 }
 
+/// E3: a batch being applied while another thread rotates the memtable and fjall's worker flushes the sealed part; the
+/// crash image taken afterwards must hold the batch entirely or not at all.
+pub fn bodies(tier: &str) -> Vec<crate::e3::BodySpec> {
+    use crate::props::c06::{Act, Finals, Kind, VisBody};
+    use std::sync::Arc;
+    let q = tier == "quick";
+    let mut v = vec![crate::e3::BodySpec {
+        body: Arc::new(VisBody { name: "batch(x.a,x.b,y.a) || rotate x || worker flush; crash image: batch all-or-nothing [focus:commit-path]", kind: Kind::Plain, workers: 1, keyspaces: vec!["x", "y"], initial: vec![("x", "ab", "0")], prerotate: vec![], threads: vec![vec![Act::Batch(vec![("x", "a", "1"), ("x", "b", "1"), ("y", "a", "1")])], vec![Act::Rotate("x")]], finals: Finals::CrashAtomic }),
+        bound: if q { 1 } else { 2 },
+        secs: if q { 6.0 } else { 200.0 },
+    }];
+    if !q {
+        v.push(crate::e3::BodySpec {
+            body: Arc::new(VisBody { name: "sw-tx(x.a,x.b,y.a) || rotate x || worker flush; crash image: tx all-or-nothing [focus:commit-path]", kind: Kind::Sw, workers: 1, keyspaces: vec!["x", "y"], initial: vec![("x", "ab", "0")], prerotate: vec![], threads: vec![vec![Act::Tx(vec![("x", "a", "1"), ("x", "b", "1"), ("y", "a", "1")])], vec![Act::Rotate("x")]], finals: Finals::CrashAtomic }),
+            bound: 2,
+            secs: 200.0,
+        });
+    }
+    v
+}
+
 pub fn run(tier: &str) -> i32 {
     let t0 = Instant::now();
     let mut o = Outcome::new("C03", tier, "fault_enumeration");
@@ -304,11 +325,21 @@ pub fn run(tier: &str) -> i32 {
     let mut f = f;
     f.sort_by_key(|x| (x.sig.clone(), x.variant["cut"].as_u64().unwrap_or(0)));
     o.findings.extend(f);
+    crate::e3::fold_e3(&mut o, "C03", tier, &crate::e3::with_variants(bodies(tier), tier), "e3_");
     o.wall_s = t0.elapsed().as_secs_f64();
     finish(o)
 }
 
 pub fn replay(v: &serde_json::Value) -> i32 {
+    if v["engine"] == "E3-schedcheck" {
+        let tier = v["variant"]["tier"].as_str().unwrap_or("quick");
+        let bi = v["variant"]["body_index"].as_u64().unwrap_or(0) as usize;
+        let choices: Vec<usize> = v["variant"]["choices"].as_array().map(|a| a.iter().filter_map(|c| c.as_u64().map(|c| c as usize)).collect()).unwrap_or_default();
+        return match crate::e3::with_variants(bodies(tier), tier).get(bi) {
+            Some(b) => crate::e3::replay_schedule(&*b.body, &choices),
+            None => 2,
+        };
+    }
     if v["engine"] == "E1-seqcheck" {
         let name = v["variant"]["pass"].as_str().unwrap_or("");
         let plen = v["variant"]["prefix_len"].as_u64().unwrap_or(0) as usize;
